@@ -9,6 +9,8 @@ import (
 	"fmt"
 	"io/ioutil"
 	"os"
+	"sync/atomic"
+	"time"
 )
 
 // A runner generates self-contained inputs and executes one input against the
@@ -62,4 +64,23 @@ func main() {
 		}
 		e.emit(in2, r.run(in2))
 	})
+}
+
+// waitDone waits for a single operation of the code under test.  The limit is generous (a loaded machine must not be
+// mistaken for a hang) until a first hang has been seen in this process; after that the stuck goroutine is spinning
+// and later operations get the short limit.
+var hangSeen int32
+
+func waitDone(done <-chan struct{}, base time.Duration) bool {
+	limit := 6 * base
+	if atomic.LoadInt32(&hangSeen) != 0 {
+		limit = base
+	}
+	select {
+	case <-done:
+		return true
+	case <-time.After(limit):
+		atomic.StoreInt32(&hangSeen, 1)
+		return false
+	}
 }
